@@ -107,6 +107,7 @@ var specShuffle = pbt.Register(&pbt.Spec[ShuffleCase]{
 		return ShuffleCase{N: n, Seed: rapid.Int64().Draw(t, "seed")}
 	},
 	Run: RunShuffle, Quick: 5000, Thorough: 30000,
+	Replicas: 4, ReplicaEvery: 8,
 })
 
 func TestC15Shuffle(t *testing.T) { pbt.Check(t, specShuffle) }
